@@ -72,20 +72,28 @@ Definition disagree_idx (f : func) (k : ckind) (ti : ity) : list (Z * Z) :=
 
 (* ---------- nil dereference: the signal path as a state machine ---------- *)
 (* A fault is delivered to the handler only if SIGSEGV is not blocked; handler
-   entry blocks it; leaving the handler by a non-local jump restores the mask
-   saved at sigsetjmp time only when the jump buffer was saved WITH the mask. *)
+   entry blocks it unless the handler was installed with SA_NODEFER; leaving
+   the handler by a non-local jump restores the mask saved at sigsetjmp time
+   only when the jump buffer was saved WITH the mask, otherwise the mask of the
+   handler stays in force. *)
 Record sigst := { blocked : bool; recovered : nat; dead : bool }.
 Definition sig_init := {| blocked := false; recovered := 0; dead := false |}.
 
-(* one nil dereference inside a function with a deferred recover *)
-Definition fault (savemask : bool) (s : sigst) : sigst :=
+(* one nil dereference inside a function with a deferred recover;
+   nodefer: the sa_flags the runtime installs the handler with contain SA_NODEFER,
+   savemask: second argument of the sigsetjmp the compiler emits *)
+Definition fault (nodefer savemask : bool) (s : sigst) : sigst :=
   if dead s then s
   else if blocked s then {| blocked := true; recovered := recovered s; dead := true |}   (* default action: killed *)
-  else (* handler runs with SIGSEGV blocked, panics, siglongjmp to the frame saved by sigsetjmp(jb, savemask) *)
-    {| blocked := negb savemask; recovered := S (recovered s); dead := false |}.
+  else (* handler runs, panics, siglongjmp to the frame saved by sigsetjmp(jb, savemask) *)
+    {| blocked := negb nodefer && negb savemask; recovered := S (recovered s); dead := false |}.
 
-Fixpoint faults (savemask : bool) (n : nat) (s : sigst) : sigst :=
-  match n with O => s | S n' => faults savemask n' (fault savemask s) end.
+Fixpoint faults (nodefer savemask : bool) (n : nat) (s : sigst) : sigst :=
+  match n with O => s | S n' => faults nodefer savemask n' (fault nodefer savemask s) end.
+
+(* the configuration of the tree, as extracted by the check (obligation
+   gen_signal_config_recoverable): handler flags and sigsetjmp argument *)
+Definition recoverable_config (nodefer savemask : bool) : bool := nodefer || savemask.
 
 (* ---------- FitIntSize: bounds of slice expressions and make ---------- *)
 (* A bound of an integer type wider than int is narrowed before the runtime
